@@ -519,6 +519,58 @@ func Run(j *job.Job, s *job.Sink) {
 					if lastClean {
 						ms.ClearEntryCache()
 						readWalk(ms)
+						// the trees built after the cache was dropped are whole: what an
+						// included submodule writes at its top is in the tree of the module
+						// (only where one revision of the module is loaded, see the recorded
+						// finding c13-two-revisions-share-a-submodule)
+						for key, m := range ms.Modules {
+							if key != m.FullName() || ms.Modules[m.Name] != m || (key != m.Name && len(ms.Modules) > 0 && ms.Modules[m.Name+"@"] != nil) {
+								continue
+							}
+							revs := 0
+							for _, o := range ms.Modules {
+								if o.Name == m.Name && o != m {
+									revs++
+								}
+							}
+							if revs > 0 {
+								continue
+							}
+							e := yang.ToEntry(m)
+							var check func(sm *yang.Module, seen map[*yang.Module]bool)
+							check = func(sm *yang.Module, seen map[*yang.Module]bool) {
+								if sm == nil || seen[sm] {
+									return
+								}
+								seen[sm] = true
+								var names []string
+								for _, x := range sm.Container {
+									names = append(names, x.Name)
+								}
+								for _, x := range sm.Leaf {
+									names = append(names, x.Name)
+								}
+								for _, x := range sm.List {
+									names = append(names, x.Name)
+								}
+								for _, x := range sm.LeafList {
+									names = append(names, x.Name)
+								}
+								for _, n := range names {
+									s.Count("submodule_nodes_checked_after_cache_clear", 1)
+									if e.Dir[n] == nil {
+										bad("cache-clear-loses-submodule-nodes", fmt.Sprintf("after ClearEntryCache, ToEntry(%s) lacks %s, which submodule %s writes at its top", key, n, sm.Name), nil)
+									}
+								}
+								for _, in := range sm.Include {
+									check(in.Module, seen)
+								}
+							}
+							seen := map[*yang.Module]bool{}
+							for _, in := range m.Include {
+								check(in.Module, seen)
+							}
+						}
 					}
 				case "process":
 					s.Count("process_steps_compared", 1)
